@@ -7,6 +7,7 @@ import (
 	"fmt"
 	"sort"
 	"strings"
+	"sync"
 )
 
 // root of an array term below any stores
@@ -47,6 +48,9 @@ type qpattern struct {
 }
 
 func patternsOf(q *QFact) []qpattern {
+	if q.OnlySelect {
+		return []qpattern{{kind: "select", root: q.SelectRoot, off: I64(0)}}
+	}
 	var ps []qpattern
 	zero := map[*Term]*Term{q.BV: I64(0)}
 	seen := map[int]bool{}
@@ -310,4 +314,59 @@ func fmtModel(vals []*Term, strs []string, res Result) []string {
 		}
 	}
 	return out
+}
+
+// heavyTerm: does the term mention the specification run (R.* / spec.* applications)?
+var heavyCache sync.Map
+
+func heavyTerm(t *Term) bool {
+	if v, ok := heavyCache.Load(t.id); ok {
+		return v.(bool)
+	}
+	res := false
+	if t.Op == "app" && (strings.HasPrefix(t.Name, "R") && strings.Contains(t.Name, ".") && strings.Contains(t.Name, "$") || strings.HasPrefix(t.Name, "spec.")) {
+		res = true
+	} else {
+		for _, a := range t.Args {
+			if heavyTerm(a) {
+				res = true
+				break
+			}
+		}
+	}
+	heavyCache.Store(t.id, res)
+	return res
+}
+
+func lightHyps(hs []*Term, qs []*QFact) ([]*Term, []*QFact) {
+	var lh []*Term
+	for _, h := range hs {
+		if h.Op == "and" {
+			// keep the light conjuncts of a mixed conjunction
+			var keep []*Term
+			for _, c := range h.Args {
+				if !heavyTerm(c) {
+					keep = append(keep, c)
+				}
+			}
+			if len(keep) > 0 {
+				lh = append(lh, And(keep...))
+			}
+			continue
+		}
+		if !heavyTerm(h) {
+			lh = append(lh, h)
+		}
+	}
+	var lq []*QFact
+	for _, q := range qs {
+		if q.Name == "fold" || q.Name == "absorb" || q.Name == "stackrel" {
+			continue
+		}
+		if heavyTerm(q.Body) || (q.Guard != nil && heavyTerm(q.Guard)) {
+			continue
+		}
+		lq = append(lq, q)
+	}
+	return lh, lq
 }
